@@ -214,6 +214,18 @@ pub fn check_overrides(rec: &RunRecord, reg: &crate::reg::Reg, cells: &mut Cells
                         out.push(Finding::new("C06", "c06.constructor", r.idx, format!("{}: the generated {} entry point built the contract {} times for this call, it has to use a value of its own (handlers run: {:?})", d.cid(), d.entry(), built, enters.iter().map(|x| x.0).collect::<Vec<_>>())));
                     }
                 }
+                // ... and dispatches with the deps, env and info it was given
+                if !ov && d.flavour() == 1 && enters.len() == 1 && d.faults().is_empty() {
+                    let mut seen = enters[0].2.clone();
+                    if let Some(o) = seen.as_object_mut() {
+                        o.remove("gas_used");
+                        o.remove("events");
+                        o.remove("msg_responses");
+                    }
+                    if seen != *d.ctx() {
+                        out.push(Finding::new("C06", "c06.ctx", r.idx, format!("{}: the generated {} entry point was given {} but {} saw {}", d.cid(), d.entry(), d.ctx(), enters[0].0, seen)));
+                    }
+                }
                 if ov {
                     let want = format!("override:{}", d.entry());
                     // the override's own message type may reject the document: then nothing runs
